@@ -97,6 +97,20 @@ Proof.
   destruct (f_rec (b_flag b)) eqn:E; intro H; [apply IH; lia | exact E].
 Qed.
 
+Lemma nth_skipn_add {A} b k (l : list A) d : nth k (skipn b l) d = nth (b + k) l d.
+Proof. revert l. induction b as [|b IH]; intro l; [reflexivity|]. destruct l as [|x l]; [destruct k; reflexivity|]. cbn. apply IH. Qed.
+Lemma ff_le b l : find_free_from b l <= length l.
+Proof.
+  unfold find_free_from. destruct (b <=? length l) eqn:E; [|lia]. apply Nat.leb_le in E.
+  pose proof (find_free_le (skipn b l)) as H. rewrite skipn_length in H. lia.
+Qed.
+Lemma ff_free b l : find_free_from b l < length l -> f_rec (b_flag (getb (find_free_from b l) l)) = false.
+Proof.
+  unfold find_free_from. destruct (b <=? length l) eqn:E; [|lia]. apply Nat.leb_le in E. intro H.
+  assert (Hk : find_free (skipn b l) < length (skipn b l)) by (rewrite skipn_length; lia).
+  pose proof (find_free_free _ Hk) as Hf. unfold getb in *. rewrite nth_skipn_add in Hf. exact Hf.
+Qed.
+
 Lemma getb_removelast i l : i < length l - 1 -> getb i (removelast l) = getb i l.
 Proof.
   intro H. destruct l as [|x l'] eqn:E; [reflexivity|]. rewrite <- E in *.
@@ -157,7 +171,7 @@ Qed.
 
 (* ------------------------------------------------------------------ the invariant *)
 Definition ends (ch : list msg) : list nat :=
-  flat_map (fun m => match m with MEnd i => [i] | MStart _ => [] end) ch.
+  flat_map (fun m => match m with MEnd i => [i] | MStart _ => [] | MTask i => [i] end) ch.
 Definition curl (s : st) : list nat := match curr s with Some c => [c] | None => [] end.
 Definition others (s : st) : list nat := wl s ++ ends (chan s).
 Definition pend (s : st) : list nat := others s ++ curl s.
@@ -170,14 +184,21 @@ Fixpoint shl_after (ch : list msg) (l : list nat) : list nat :=
   | [] => l
   | MStart i :: t => shl_after t (l ++ [i])
   | MEnd i :: t => shl_after t (remove_first i l)
+  | MTask _ :: t => shl_after t (List.tl l)
   end.
 Definition announced (s : st) : list nat :=
-  match pc s with PZero _ | PStart _ => [] | PPrepFlag => [0] | _ => curl s end.
+  match pc s with
+  | PZero _ | PStart _ => []
+  | PPrepFlag => [0]
+  | PXFlag b o | PXTask b o => [o; b]
+  | _ => curl s
+  end.
 
 Definition cur_ok (s : st) : Prop :=
   match pc s with
   | PZero _ | PStart _ | PTime _ | PWord _ | PBump _ | PCopy _ | PBumpPl _ => exists c, curr s = Some c
   | PPick _ | PPrepStart | PPrepFlag => curr s = None
+  | PXStart b o | PXFlag b o | PXTask b o => curr s = Some o
   | _ => True
   end.
 Definition partial_ok (single : bool) (s : st) : Prop :=
@@ -192,6 +213,9 @@ Definition partial_ok (single : bool) (s : st) : Prop :=
       else read_at (b_size b) (length (r_pl r)) (b_data b) = r_pl r
   | PZero _ | PStart _ => b_size b = 0
   | PPrepStart | PPrepFlag => 0 < length (bufs s) /\ f_rec (b_flag (getb 0 (bufs s))) = false
+  | PXStart n o | PXFlag n o => n < length (bufs s) /\ f_rec (b_flag (getb n (bufs s))) = false
+  | PXTask n o => n < length (bufs s) /\ f_rec (b_flag (getb n (bufs s))) = true
+                  /\ b_size (getb n (bufs s)) = 0 /\ ~ In n (pend s)
   | _ => True
   end.
 Definition extra (single : bool) (s : st) : list N :=
@@ -201,7 +225,7 @@ Definition inflight (s : st) : list rec :=
   | PIdle => []
   | PCheck r | PFinish r | PPick r | PZero r | PStart r | PTime r | PWord r | PBump r
   | PCopy r | PBumpPl r => [r]
-  | PDark | PPrepStart | PPrepFlag => []
+  | PDark | PPrepStart | PPrepFlag | PXStart _ _ | PXFlag _ _ | PXTask _ _ => []
   end.
 
 Record Inv (single : bool) (recs : list rec) (s : st) : Prop := {
@@ -231,7 +255,9 @@ Lemma ends_app a b : ends (a ++ b) = ends a ++ ends b.
 Proof. unfold ends. apply flat_map_app. Qed.
 Lemma shl_after_app ch m l :
   shl_after (ch ++ [m]) l =
-  match m with MStart i => shl_after ch l ++ [i] | MEnd i => remove_first i (shl_after ch l) end.
+  match m with
+  | MStart i => shl_after ch l ++ [i] | MEnd i => remove_first i (shl_after ch l) | MTask _ => List.tl (shl_after ch l)
+  end.
 Proof.
   revert l; induction ch as [|m0 ch IH]; intro l; cbn.
   - destruct m; reflexivity.
@@ -266,7 +292,7 @@ Qed.
 
 (* ------------------------------------------------------------------ recorder steps *)
 Ltac simp := cbn [bufs curr chan shl wl file pc todo done with_pc with_bufs with_curr with_chan with_shl
-                  with_wl with_file with_todo with_done] in *.
+                  with_wl with_file with_todo with_done with_base base] in *.
 
 Lemma committed_size0 b : b_size b = 0 -> committed b = [].
 Proof. unfold committed. intros ->. reflexivity. Qed.
@@ -274,16 +300,40 @@ Proof. unfold committed. intros ->. reflexivity. Qed.
 Lemma NoDup_app_remove_mid {A} (a : list A) x b : NoDup (a ++ x :: b) -> NoDup (a ++ b) /\ ~ In x (a ++ b).
 Proof. intro H. split; [eapply NoDup_remove_1; eauto | eapply NoDup_remove_2; eauto]. Qed.
 
-Lemma rstep_inv single recs s : Inv single recs s -> Inv single recs (rstep s) /\ content (rstep s) = content s.
+Lemma partial_ok_ext single s s' :
+  pc s' = pc s -> curr s' = curr s ->
+  (forall c, curr s = Some c -> getb c (bufs s') = getb c (bufs s)) ->
+  (forall n, ~ In n (pend s) \/ f_rec (b_flag (getb n (bufs s))) = false -> getb n (bufs s') = getb n (bufs s)) ->
+  length (bufs s') = length (bufs s) ->
+  (forall n, In n (pend s') -> In n (pend s)) ->
+  cur_ok s -> partial_ok single s -> partial_ok single s'.
 Proof.
-  intros HI.
-  unfold rstep. destruct (chan s) as [|[i|i] ch] eqn:Ech;
-    [split; [exact HI | reflexivity] | |]; destruct HI as [Hnd Hrec Hfree Hcur Hpart Hshl Hcont Hrecs].
+  intros Hpc Hc Hb H0 Hlen Hpe Hcur Hp. unfold partial_ok, cur_ok, cur_buf in *. rewrite Hpc, Hc, Hlen.
+  destruct (pc s); try exact I.
+  all: try (destruct Hp as [Hp1 Hp2]; rewrite (H0 _ (or_intror Hp2)); split; assumption).
+  all: try (destruct Hp as [Hp1 [Hp2 [Hp3 Hp4]]]; rewrite (H0 _ (or_introl Hp4)); repeat split; try assumption;
+            intro Hn; apply Hp4; apply Hpe; exact Hn).
+  all: destruct Hcur as [c Ec]; rewrite Ec in *; rewrite (Hb c eq_refl); exact Hp.
+Qed.
+
+(* when TASK_START of an exec()ed image reaches the head of the pipe, the first announced buffer of the tid is
+   the one the old image was recording into *)
+Definition TaskInv (s : st) : Prop :=
+  forall pre i post, chan s = pre ++ MTask i :: post -> exists r, shl_after pre (shl s) = i :: r.
+
+Lemma rstep_inv single recs s :
+  TaskInv s -> Inv single recs s -> Inv single recs (rstep s) /\ content (rstep s) = content s.
+Proof.
+  intros HT HI.
+  unfold rstep. destruct (chan s) as [|[i|i|i] ch] eqn:Ech;
+    [split; [exact HI | reflexivity] | | |]; destruct HI as [Hnd Hrec Hfree Hcur Hpart Hshl Hcont Hrecs].
   - (* REC_START *)
     assert (Hp : pend (with_shl (shl s ++ [i]) (with_chan ch s)) = pend s).
     { unfold pend, others, curl. simp. rewrite Ech. reflexivity. }
+    assert (Hincl : forall n, In n (pend (with_shl (shl s ++ [i]) (with_chan ch s))) -> In n (pend s))
+      by (intros n Hn; rewrite Hp in Hn; exact Hn).
     split.
-    + constructor; try (rewrite Hp); simp; try assumption.
+    + constructor; try (rewrite Hp); simp; try assumption; try (apply (partial_ok_ext single s); [reflexivity | reflexivity | intros; reflexivity | intros; reflexivity | reflexivity | exact Hincl | assumption | assumption]).
       * unfold announced, curl in *. simp. rewrite <- Hshl, Ech. reflexivity.
       * unfold content in *. rewrite Hp. simp. exact Hcont.
     + unfold content. rewrite Hp. reflexivity.
@@ -297,8 +347,10 @@ Proof.
     destruct (f_rec (b_flag (getb i (bufs s1))) && negb (b_size (getb i (bufs s1)) =? 0)) eqn:Eq.
     + assert (Hp : pend (with_wl (wl s1 ++ [i]) s1) = pend s).
       { rewrite Hpend. unfold pend, others, curl, s1. simp. rewrite <- !app_assoc. reflexivity. }
+      assert (Hincl : forall n, In n (pend (with_wl (wl s1 ++ [i]) s1)) -> In n (pend s))
+        by (intros n Hn; rewrite Hp in Hn; exact Hn).
       split.
-      * constructor; try (rewrite Hp); unfold s1 in *; simp; try assumption.
+      * constructor; try (rewrite Hp); unfold s1 in *; simp; try assumption; try (apply (partial_ok_ext single s); [reflexivity | reflexivity | intros; reflexivity | intros; reflexivity | reflexivity | exact Hincl | assumption | assumption]).
         unfold content in *. rewrite Hp. simp. exact Hcont.
       * unfold content. rewrite Hp. reflexivity.
     + assert (Hp : pend s1 = wl s ++ ends ch ++ curl s).
@@ -314,24 +366,52 @@ Proof.
         rewrite !body_app. f_equal. f_equal.
         change (i :: ends ch ++ curl s) with ([i] ++ (ends ch ++ curl s)).
         rewrite (body_app _ [i]), body_one, (committed_size0 _ Hsz). rewrite body_app. reflexivity. }
+      assert (Hincl : forall n, In n (pend s1) -> In n (pend s)).
+      { intros n Hn. rewrite Hp in Hn. rewrite Hpend.
+        apply in_app_or in Hn. apply in_or_app. destruct Hn as [Hn|Hn]; [left; exact Hn | right; right; exact Hn]. }
       split; [|exact Hc].
-      constructor; try (rewrite Hp); unfold s1 in *; simp; try assumption.
+      constructor; try (rewrite Hp); unfold s1 in *; simp; try assumption; try (apply (partial_ok_ext single s); [reflexivity | reflexivity | intros; reflexivity | intros; reflexivity | reflexivity | exact Hincl | assumption | assumption]).
       * intros j Hj. apply Hrec. rewrite Hpend.
         apply in_app_or in Hj. apply in_or_app. destruct Hj as [Hj|Hj]; [left; exact Hj | right; right; exact Hj].
       * rewrite Hc. exact Hcont.
-Qed.
-
-Lemma partial_ok_ext single s s' :
-  pc s' = pc s -> curr s' = curr s ->
-  (forall c, curr s = Some c -> getb c (bufs s') = getb c (bufs s)) ->
-  (f_rec (b_flag (getb 0 (bufs s))) = false -> getb 0 (bufs s') = getb 0 (bufs s)) ->
-  length (bufs s') = length (bufs s) ->
-  cur_ok s -> partial_ok single s -> partial_ok single s'.
-Proof.
-  intros Hpc Hc Hb H0 Hlen Hcur Hp. unfold partial_ok, cur_ok, cur_buf in *. rewrite Hpc, Hc, Hlen.
-  destruct (pc s); try exact I;
-    try (destruct Hp as [Hp1 Hp2]; rewrite (H0 Hp2); split; assumption);
-    destruct Hcur as [c Ec]; rewrite Ec in *; rewrite (Hb c eq_refl); exact Hp.
+  - (* TASK_START of an exec()ed image: flush_old_shmem takes the first announced buffer - the old image's *)
+    destruct (HT [] i ch Ech) as [r Hr]. cbn [shl_after] in Hr. rewrite Hr.
+    set (s1 := with_shl r (with_chan ch s)).
+    assert (Hpend : pend s = wl s ++ i :: ends ch ++ curl s).
+    { unfold pend, others. rewrite Ech. cbn. rewrite <- app_assoc. reflexivity. }
+    assert (Hshl1 : shl_after (chan s1) (shl s1) = announced s1).
+    { unfold s1, announced, curl in *. simp. rewrite <- Hshl, Ech. cbn [shl_after]. rewrite Hr. reflexivity. }
+    unfold queue_if.
+    destruct (f_rec (b_flag (getb i (bufs s1))) && negb (b_size (getb i (bufs s1)) =? 0)) eqn:Eq.
+    + assert (Hp : pend (with_wl (wl s1 ++ [i]) s1) = pend s).
+      { rewrite Hpend. unfold pend, others, curl, s1. simp. rewrite <- !app_assoc. reflexivity. }
+      assert (Hincl : forall n, In n (pend (with_wl (wl s1 ++ [i]) s1)) -> In n (pend s))
+        by (intros n Hn; rewrite Hp in Hn; exact Hn).
+      split.
+      * constructor; try (rewrite Hp); unfold s1 in *; simp; try assumption; try (apply (partial_ok_ext single s); [reflexivity | reflexivity | intros; reflexivity | intros; reflexivity | reflexivity | exact Hincl | assumption | assumption]).
+        unfold content in *. rewrite Hp. simp. exact Hcont.
+      * unfold content. rewrite Hp. reflexivity.
+    + assert (Hp : pend s1 = wl s ++ ends ch ++ curl s).
+      { unfold pend, others, curl, s1. simp. rewrite <- app_assoc. reflexivity. }
+      rewrite Hpend in Hnd. apply NoDup_app_remove_mid in Hnd. destruct Hnd as [Hnd Hni].
+      assert (Hi : In i (pend s)) by (rewrite Hpend; apply in_or_app; right; left; reflexivity).
+      destruct (Hrec i Hi) as [_ Hri].
+      assert (Hsz : b_size (getb i (bufs s)) = 0).
+      { unfold s1 in Eq. simp. rewrite Hri in Eq. cbn in Eq.
+        apply negb_false_iff in Eq. apply Nat.eqb_eq in Eq. exact Eq. }
+      assert (Hc : content s1 = content s).
+      { unfold content. rewrite Hp, Hpend. unfold s1. simp.
+        rewrite !body_app. f_equal. f_equal.
+        change (i :: ends ch ++ curl s) with ([i] ++ (ends ch ++ curl s)).
+        rewrite (body_app _ [i]), body_one, (committed_size0 _ Hsz). rewrite body_app. reflexivity. }
+      assert (Hincl : forall n, In n (pend s1) -> In n (pend s)).
+      { intros n Hn. rewrite Hp in Hn. rewrite Hpend.
+        apply in_app_or in Hn. apply in_or_app. destruct Hn as [Hn|Hn]; [left; exact Hn | right; right; exact Hn]. }
+      split; [|exact Hc].
+      constructor; try (rewrite Hp); unfold s1 in *; simp; try assumption; try (apply (partial_ok_ext single s); [reflexivity | reflexivity | intros; reflexivity | intros; reflexivity | reflexivity | exact Hincl | assumption | assumption]).
+      * intros j Hj. apply Hrec. rewrite Hpend.
+        apply in_app_or in Hj. apply in_or_app. destruct Hj as [Hj|Hj]; [left; exact Hj | right; right; exact Hj].
+      * rewrite Hc. exact Hcont.
 Qed.
 
 Lemma wstep_inv single recs s : Inv single recs s -> Inv single recs (wstep s) /\ content (wstep s) = content s.
@@ -363,12 +443,13 @@ Proof.
     + rewrite getb_upd_same by exact Hil. reflexivity.
     + rewrite getb_upd_other by exact Hne. apply Hfree.
   - unfold s', write_one, cur_ok in *. simp. exact Hcur.
-  - apply (partial_ok_ext single s); try reflexivity; try assumption.
+  - assert (Hi0 : In i (pend s)) by (rewrite Hpend; left; reflexivity).
+    apply (partial_ok_ext single s); try reflexivity; try assumption.
     + intros c Ec. apply Hb. unfold rest, curl. rewrite Ec. apply in_or_app. right. apply in_or_app. right. left. reflexivity.
-    + intro H0. unfold s', write_one. simp. apply getb_upd_other. intro E0. subst i.
-      assert (Hi0 : In 0 (pend s)) by (rewrite Hpend; left; reflexivity).
-      destruct (Hrec 0 Hi0) as [_ Hf0]. congruence.
+    + intros n Hn. unfold s', write_one. simp. apply getb_upd_other. intro E0. subst n.
+      destruct (Hrec i Hi0) as [_ Hf0]. destruct Hn as [Hn|Hn]; [contradiction | congruence].
     + unfold s', write_one. simp. apply upd_length.
+    + intros n Hn. rewrite Hp in Hn. rewrite Hpend. right. exact Hn.
   - unfold s', write_one, announced, curl in *. simp. exact Hshl.
   - rewrite Hc. unfold s', write_one, extra. simp. exact Hcont.
   - unfold s', write_one, inflight. simp. exact Hrecs.
@@ -698,17 +779,17 @@ Qed.
 Lemma p_pick single recs cap s r : pc s = PPick r -> Inv single recs s -> Inv single recs (pstep single cap s).
 Proof.
   intros Epc HI. unfold pstep. rewrite Epc. open_inv HI Epc.
-  set (i := find_free (bufs s)).
+  set (i := find_free_from (base s) (bufs s)).
   set (l := if i <? length (bufs s) then bufs s else bufs s ++ [fresh_buf]).
   set (g := fun b => set_flag (or_rec (b_flag b)) b).
   assert (Hpe : pend s = others s) by (unfold pend, curl; rewrite Hcur; apply app_nil_r).
-  assert (Hile : i <= length (bufs s)) by apply find_free_le.
+  assert (Hile : i <= length (bufs s)) by apply ff_le.
   assert (Hil : i < length l).
   { unfold l. destruct (i <? length (bufs s)) eqn:E; [apply Nat.ltb_lt; exact E|].
     rewrite app_length. cbn. lia. }
   assert (Hib : f_rec (b_flag (getb i l)) = false /\ b_size (getb i l) = 0).
   { unfold l. destruct (i <? length (bufs s)) eqn:E.
-    - apply Nat.ltb_lt in E. pose proof (find_free_free (bufs s) E) as Hf. fold i in Hf.
+    - apply Nat.ltb_lt in E. pose proof (ff_free (base s) (bufs s) E) as Hf. fold i in Hf.
       split; [exact Hf | apply Hfree; exact Hf].
     - apply Nat.ltb_ge in E. assert (i = length (bufs s)) as -> by lia.
       rewrite getb_app_fresh. split; reflexivity. }
@@ -789,6 +870,84 @@ Proof.
     + rewrite getb_upd_other by exact Hne. apply Hfree.
 Qed.
 
+(* the image exec()ed in the task sets itself up: REC_START of its first buffer, the flag, TASK_START *)
+Lemma p_xstart single recs cap s b o : pc s = PXStart b o -> Inv single recs s -> Inv single recs (pstep single cap s).
+Proof.
+  intros Epc HI. unfold pstep. rewrite Epc. open_inv HI Epc.
+  set (s' := with_pc (PXFlag b o) (with_chan (chan s ++ [MStart b]) s)).
+  assert (Hp : pend s' = pend s).
+  { unfold pend, others, curl, s'. simp. rewrite ends_app. cbn. rewrite app_nil_r. reflexivity. }
+  assert (Hc : content s' = content s) by (unfold content; rewrite Hp; reflexivity).
+  constructor; try (rewrite Hp); try (rewrite Hc); subst s'; close_fields; try assumption; try exact I;
+    try (keep_recs Hrecs).
+  rewrite shl_after_app, Hshl. unfold curl. rewrite Hcur. reflexivity.
+Qed.
+
+Lemma p_xflag single recs cap s b o : pc s = PXFlag b o -> Inv single recs s -> Inv single recs (pstep single cap s).
+Proof.
+  intros Epc HI. unfold pstep. rewrite Epc. open_inv HI Epc. destruct Hpart as [Hlb Hfb].
+  set (g := set_flag {| f_new := true; f_written := false; f_rec := true |}).
+  set (s' := with_pc (PXTask b o) (with_bufs (upd b g (bufs s)) s)).
+  assert (Hnb : ~ In b (pend s)).
+  { intro Hin. destruct (Hrec b Hin) as [_ Hf]. congruence. }
+  assert (Hp' : pend s' = pend s) by reflexivity.
+  assert (Hgb : getb b (upd b g (bufs s)) = g (getb b (bufs s))) by (apply getb_upd_same; exact Hlb).
+  assert (Hc' : content s' = content s).
+  { unfold content. rewrite Hp'. unfold s'. simp. f_equal. apply body_upd_notin. exact Hnb. }
+  constructor; try (rewrite Hc'); try (rewrite Hp'); subst s'; close_fields; try assumption; try exact I;
+    try (keep_recs Hrecs).
+  - intros j Hj. rewrite upd_length.
+    assert (Hne : b <> j) by (intro; subst; contradiction).
+    rewrite getb_upd_other by exact Hne. apply Hrec. exact Hj.
+  - intros j. destruct (Nat.eq_dec b j) as [<-|Hne].
+    + rewrite Hgb. unfold g. cbn. discriminate.
+    + rewrite getb_upd_other by exact Hne. apply Hfree.
+  - rewrite upd_length, Hgb. unfold g. cbn [b_flag b_size set_flag f_rec].
+    repeat split; try assumption; try reflexivity; try (apply Hfree; exact Hfb).
+Qed.
+
+Lemma p_xtask single recs cap s b o : pc s = PXTask b o -> Inv single recs s -> Inv single recs (pstep single cap s).
+Proof.
+  intros Epc HI. unfold pstep. rewrite Epc. open_inv HI Epc. destruct Hpart as [Hlb [Hfb [Hsb Hnb]]].
+  set (s' := with_pc PIdle (with_curr (Some b) (with_chan (chan s ++ [MTask o]) s))).
+  assert (Hpe : pend s = others s ++ [o]) by (unfold pend, curl; rewrite Hcur; reflexivity).
+  assert (Hp' : pend s' = pend s ++ [b]).
+  { rewrite Hpe. unfold pend, others, curl, s'. simp. rewrite ends_app. cbn. rewrite <- !app_assoc. reflexivity. }
+  assert (Hc' : content s' = content s).
+  { unfold content. rewrite Hp'. unfold s'. simp. rewrite body_app, body_one, (committed_size0 _ Hsb), app_nil_r.
+    reflexivity. }
+  constructor; try (rewrite Hc'); try (rewrite Hp'); subst s'; close_fields; try assumption; try exact I;
+    try (keep_recs Hrecs).
+  - apply NoDup_snoc; assumption.
+  - intros j Hj. apply in_app_or in Hj. destruct Hj as [Hj|[<-|[]]]; [apply Hrec; exact Hj | split; assumption].
+  - rewrite shl_after_app, Hshl. reflexivity.
+Qed.
+
+(* exec between two hook calls *)
+Lemma xstep_inv single recs s : Inv single recs s -> Inv single recs (xstep s).
+Proof.
+  intro HI. unfold xstep. destruct (pc s) eqn:Epc; try exact HI. destruct (curr s) as [c|] eqn:Ec; [|exact HI].
+  open_inv HI Epc.
+  set (l' := bufs s ++ [fresh_buf; fresh_buf]).
+  set (s' := with_pc (PXStart (length (bufs s)) c) (with_base (length (bufs s)) (with_bufs l' s))).
+  assert (Hp' : pend s' = pend s) by reflexivity.
+  assert (Hg : forall i, i < length (bufs s) -> getb i l' = getb i (bufs s)).
+  { intros i Hi. unfold l'. apply getb_app1. exact Hi. }
+  assert (Hc' : content s' = content s).
+  { unfold content. rewrite Hp'. unfold s'. simp. f_equal. unfold body. f_equal. apply map_ext_in. intros i Hi.
+    destruct (Hrec i Hi) as [Hl _]. rewrite (Hg i Hl). reflexivity. }
+  constructor; try (rewrite Hc'); try (rewrite Hp'); subst s'; close_fields; try assumption; try exact I;
+    try (keep_recs Hrecs).
+  - intros i Hi. destruct (Hrec i Hi) as [Hl Hf]. unfold l'. rewrite app_length. split; [lia|].
+    fold l'. rewrite (Hg i Hl). exact Hf.
+  - intros i Hf. destruct (Nat.lt_ge_cases i (length (bufs s))) as [Hl|Hge].
+    + rewrite (Hg i Hl) in Hf |- *. apply Hfree. exact Hf.
+    + unfold l', getb. rewrite app_nth2 by exact Hge.
+      destruct (i - length (bufs s)) as [|[|k]]; try reflexivity. destruct k; reflexivity.
+  - unfold l'. rewrite app_length. cbn [length]. split; [lia|].
+    unfold getb. rewrite app_nth2 by lia. rewrite Nat.sub_diag. reflexivity.
+Qed.
+
 Lemma pstep_inv single recs cap s : Inv single recs s -> Inv single recs (pstep single cap s).
 Proof.
   intro HI. destruct (pc s) eqn:Epc.
@@ -805,6 +964,9 @@ Proof.
   - eapply p_bumppl; eassumption.
   - apply p_prepstart; assumption.
   - apply p_prepflag; assumption.
+  - eapply p_xstart; eassumption.
+  - eapply p_xflag; eassumption.
+  - eapply p_xtask; eassumption.
   - unfold pstep. rewrite Epc. exact HI.
 Qed.
 
@@ -872,44 +1034,118 @@ Proof.
     + constructor; close_fields; try assumption; try exact I; try (destruct single; exact Hcont); try (cbn [app]; dark_recs Hrecs).
 Qed.
 
-Lemma step_inv single recs cap l s : Inv single recs s -> Inv single recs (step single cap l s).
+(* ------------------------------------------------------------------ TASK_START finds the old image's buffer *)
+Lemma task_same s s' : chan s' = chan s -> shl s' = shl s -> TaskInv s -> TaskInv s'.
+Proof. intros Hc Hs H pre i post E. rewrite Hc in E. rewrite Hs. exact (H pre i post E). Qed.
+
+Lemma task_append s s' m :
+  chan s' = chan s ++ [m] -> shl s' = shl s -> TaskInv s ->
+  (forall i, m = MTask i -> exists r, shl_after (chan s) (shl s) = i :: r) ->
+  TaskInv s'.
 Proof.
-  intro HI. destruct l; cbn.
-  - apply pstep_inv. exact HI.
-  - apply rstep_inv. exact HI.
-  - apply wstep_inv. exact HI.
-  - apply pstep_closed_inv. exact HI.
-  - apply dstep_inv. exact HI.
-  - apply dstep_inv. exact HI.
+  intros Hc Hs H Hm pre i post E. rewrite Hc in E. rewrite Hs.
+  destruct post as [|x post'] using rev_ind.
+  - apply app_inj_tail in E. destruct E as [E1 E2]. subst pre. apply Hm. exact E2.
+  - clear IHpost'. change (pre ++ MTask i :: post' ++ [x]) with (pre ++ (MTask i :: post') ++ [x]) in E.
+    rewrite app_assoc in E. apply app_inj_tail in E. destruct E as [E1 _]. exact (H pre i post' E1).
 Qed.
 
-Lemma run_inv single recs cap sched s : Inv single recs s -> Inv single recs (run single cap sched s).
+Lemma task_rstep s : TaskInv s -> TaskInv (rstep s).
 Proof.
-  revert s. induction sched as [|l t IH]; intros s HI; cbn; [exact HI|].
-  apply IH. apply step_inv. exact HI.
+  intros H pre i post E. unfold rstep in *. destruct (chan s) as [|m ch] eqn:Ech.
+  - rewrite Ech in E. destruct pre; discriminate.
+  - assert (Hch : chan (rstep s) = ch /\ shl_after pre (shl (rstep s)) = shl_after (m :: pre) (shl s)).
+    { unfold rstep. rewrite Ech. destruct m as [j|j|j]; unfold queue_if; simp.
+      - split; reflexivity.
+      - destruct (_ && _); simp; split; reflexivity.
+      - destruct (shl s) as [|k r] eqn:Es; [simp; rewrite Es; split; reflexivity|].
+        unfold queue_if. destruct (_ && _); simp; split; reflexivity. }
+    destruct Hch as [Hc Hs]. unfold rstep in Hc, Hs. rewrite Ech in Hc, Hs. rewrite Hs.
+    apply (H (m :: pre) i post). rewrite Hc in E. rewrite Ech, E. reflexivity.
 Qed.
+
+Lemma task_wstep s : TaskInv s -> TaskInv (wstep s).
+Proof.
+  intro H. apply (task_same s); [| |exact H]; unfold wstep; destruct (wl s); try reflexivity; unfold write_one; reflexivity.
+Qed.
+
+Lemma task_pstep single recs cap s : Inv single recs s -> TaskInv s -> TaskInv (pstep single cap s).
+Proof.
+  intros HI HT. destruct HI as [_ _ _ Hcur _ Hshl _ _].
+  unfold pstep. destruct (pc s) eqn:Epc;
+    repeat match goal with |- context [match ?x with _ => _ end] => destruct x eqn:? end;
+    try (apply (task_same s); [reflexivity | reflexivity | exact HT]);
+    try (eapply (task_append s); [simp; reflexivity | reflexivity | exact HT | intros j Ej; discriminate]).
+  (* TASK_START of the exec()ed image *)
+  eapply (task_append s); [simp; reflexivity | reflexivity | exact HT |].
+  intros j Ej. injection Ej as <-. unfold announced in Hshl. rewrite Epc in Hshl. rewrite Hshl. eexists. reflexivity.
+Qed.
+
+Lemma task_pstep_closed single recs cap s : Inv single recs s -> TaskInv s -> TaskInv (pstep_closed single cap s).
+Proof.
+  intros HI HT. unfold pstep_closed. destruct (pc s) eqn:Epc; try (apply (task_pstep single recs); assumption);
+    apply (task_same s); try reflexivity; exact HT.
+Qed.
+
+Lemma task_dstep closed s : TaskInv s -> TaskInv (dstep closed s).
+Proof.
+  intro HT. unfold dstep, pend_thread. destruct (pc s); try exact HT.
+  destruct closed; [apply (task_same s); try reflexivity; exact HT|].
+  destruct (curr s); [|apply (task_same s); try reflexivity; exact HT].
+  eapply (task_append s); [simp; reflexivity | reflexivity | exact HT | intros j Ej; discriminate].
+Qed.
+
+Lemma task_xstep s : TaskInv s -> TaskInv (xstep s).
+Proof.
+  intro HT. unfold xstep. destruct (pc s); try exact HT. destruct (curr s); [|exact HT].
+  apply (task_same s); try reflexivity; exact HT.
+Qed.
+
+Lemma step_inv single recs cap l s :
+  Inv single recs s -> TaskInv s -> Inv single recs (step single cap l s) /\ TaskInv (step single cap l s).
+Proof.
+  intros HI HT. destruct l; cbn.
+  - split; [apply pstep_inv; exact HI | apply (task_pstep single recs); assumption].
+  - split; [apply rstep_inv; assumption | apply task_rstep; exact HT].
+  - split; [apply wstep_inv; exact HI | apply task_wstep; exact HT].
+  - split; [apply pstep_closed_inv; exact HI | apply (task_pstep_closed single recs); assumption].
+  - split; [apply dstep_inv; exact HI | apply task_dstep; exact HT].
+  - split; [apply dstep_inv; exact HI | apply task_dstep; exact HT].
+  - split; [apply xstep_inv; exact HI | apply task_xstep; exact HT].
+Qed.
+
+Lemma run_inv2 single recs cap sched s :
+  Inv single recs s -> TaskInv s -> Inv single recs (run single cap sched s) /\ TaskInv (run single cap sched s).
+Proof.
+  revert s. induction sched as [|l t IH]; intros s HI HT; cbn; [split; assumption|].
+  destruct (step_inv single recs cap l s HI HT) as [A B]. apply IH; assumption.
+Qed.
+Lemma run_inv single recs cap sched s :
+  Inv single recs s -> TaskInv s -> Inv single recs (run single cap sched s).
+Proof. intros HI HT. apply run_inv2; assumption. Qed.
 
 (* ------------------------------------------------------------------ end of the recording *)
 Lemma rstep_frame s :
   chan (rstep s) = List.tl (chan s) /\ pc (rstep s) = pc s /\ done (rstep s) = done s /\ todo (rstep s) = todo s.
 Proof.
-  unfold rstep. destruct (chan s) as [|[i|i] ch] eqn:E; [rewrite E; cbn; auto | cbn; auto |].
-  unfold queue_if. simp.
-  destruct (f_rec (b_flag (getb i (bufs s))) && negb (b_size (getb i (bufs s)) =? 0)); cbn; auto.
+  unfold rstep. destruct (chan s) as [|[i|i|i] ch] eqn:E; [rewrite E; cbn; auto | cbn; auto | |].
+  - unfold queue_if. simp.
+    destruct (f_rec (b_flag (getb i (bufs s))) && negb (b_size (getb i (bufs s)) =? 0)); cbn; auto.
+  - destruct (shl s) as [|j r]; [cbn; auto|]. unfold queue_if. simp. destruct (_ && _); cbn; auto.
 Qed.
 
 Lemma drain_spec single recs n s :
-  Inv single recs s -> n = length (chan s) ->
+  Inv single recs s -> TaskInv s -> n = length (chan s) ->
   let s1 := iter n rstep s in
   Inv single recs s1 /\ content s1 = content s /\ chan s1 = [] /\ pc s1 = pc s /\ done s1 = done s /\ todo s1 = todo s.
 Proof.
-  revert s. induction n as [|n IH]; intros s HI Hn; cbn.
+  revert s. induction n as [|n IH]; intros s HI HT Hn; cbn.
   - split; [exact HI|]. split; [reflexivity|]. split; [|auto].
     destruct (chan s); [reflexivity|discriminate].
-  - destruct (rstep_inv single recs s HI) as [HI' Hc]. destruct (rstep_frame s) as [F1 [F2 [F3 F4]]].
+  - destruct (rstep_inv single recs s HT HI) as [HI' Hc]. destruct (rstep_frame s) as [F1 [F2 [F3 F4]]].
     assert (Hn' : n = length (chan (rstep s))).
     { rewrite F1. destruct (chan s); cbn in *; lia. }
-    destruct (IH (rstep s) HI' Hn') as [A [B [C [D [E F]]]]].
+    destruct (IH (rstep s) HI' (task_rstep s HT) Hn') as [A [B [C [D [E F]]]]].
     split; [exact A|]. split; [rewrite B; exact Hc|]. split; [exact C|].
     split; [rewrite D; exact F2|]. split; [rewrite E; exact F3 | rewrite F; exact F4].
 Qed.
@@ -917,13 +1153,17 @@ Qed.
 Lemma announced_cases single recs s :
   Inv single recs s ->
   (announced s = [] /\ body (bufs s) (curl s) = []) \/ (exists c, announced s = [c] /\ curr s = Some c)
-  \/ (announced s = [0] /\ curr s = None /\ f_rec (b_flag (getb 0 (bufs s))) = false).
+  \/ (announced s = [0] /\ curr s = None /\ f_rec (b_flag (getb 0 (bufs s))) = false)
+  \/ (exists o n, announced s = [o; n] /\ curr s = Some o
+                  /\ (f_rec (b_flag (getb n (bufs s))) = false \/ b_size (getb n (bufs s)) = 0)).
 Proof.
   intros [_ _ _ Hcur Hpart _ _ _]. unfold announced, curl, cur_ok, partial_ok, cur_buf in *.
   destruct (pc s) eqn:Epc; destruct (curr s) as [c|] eqn:Ec;
     try (right; left; exists c; split; reflexivity); try (left; split; reflexivity);
     try discriminate;
-    try (right; right; split; [reflexivity|]; split; [reflexivity|]; apply Hpart);
+    try (right; right; left; split; [reflexivity|]; split; [reflexivity|]; apply Hpart);
+    try (right; right; right; injection Hcur as ->; eexists; eexists; split; [reflexivity|]; split; [reflexivity|];
+         first [left; apply Hpart | right; apply Hpart]);
     left; (split; [reflexivity|]); rewrite body_one; apply committed_size0; exact Hpart.
 Qed.
 
@@ -943,7 +1183,8 @@ Proof.
   rewrite Hch in Hshl. cbn in Hshl.
   assert (Hp : pend s = wl s ++ curl s) by (unfold pend, others; rewrite Hch; cbn; rewrite app_nil_r; reflexivity).
   unfold flush_shmem_list. rewrite Hshl.
-  destruct (announced_cases single recs s HI) as [[Ha Hb]|[[c [Ha Ec]]|[Ha [Ec Hf0]]]]; rewrite Ha; cbn [fold_left]; simp.
+  destruct (announced_cases single recs s HI) as [[Ha Hb]|[[c [Ha Ec]]|[[Ha [Ec Hf0]]|[o [n [Ha [Ec Hn]]]]]]];
+    rewrite Ha; cbn [fold_left]; simp.
   - split; [reflexivity|]. split; [reflexivity|]. split.
     + rewrite Hp in Hnd. apply NoDup_app_l in Hnd. exact Hnd.
     + rewrite Hp, body_app, Hb, app_nil_r. reflexivity.
@@ -962,6 +1203,22 @@ Proof.
     assert (Hcl : curl s = []) by (unfold curl; rewrite Ec; reflexivity).
     rewrite Hcl, app_nil_r in Hp. simp.
     split; [reflexivity|]. split; [reflexivity|]. rewrite <- Hp. split; [exact Hnd|reflexivity].
+  - (* an exec()ed image is setting itself up: the old image's buffer o and the new, still empty, buffer n *)
+    assert (Hcl : curl s = [o]) by (unfold curl; rewrite Ec; reflexivity).
+    rewrite Hcl in Hp.
+    assert (Hin : In o (pend s)) by (rewrite Hp; apply in_or_app; right; left; reflexivity).
+    destruct (Hrec o Hin) as [_ Hf].
+    assert (Hqn : forall x, bufs x = bufs s -> queue_if n x = x).
+    { intros x Hx. unfold queue_if. rewrite Hx. destruct Hn as [Hn|Hn]; rewrite Hn; [reflexivity|].
+      rewrite andb_false_r. reflexivity. }
+    assert (Hqb : forall i x, bufs (queue_if i x) = bufs x) by (intros; unfold queue_if; destruct (_ && _); reflexivity).
+    rewrite Hqn by (rewrite Hqb; reflexivity).
+    unfold queue_if. simp. rewrite Hf. cbn [andb].
+    destruct (b_size (getb o (bufs s)) =? 0) eqn:Ez; cbn [negb]; simp.
+    + split; [reflexivity|]. split; [reflexivity|]. split.
+      * rewrite Hp in Hnd. apply NoDup_app_l in Hnd. exact Hnd.
+      * apply Nat.eqb_eq in Ez. rewrite Hp, body_app, body_one, (committed_size0 _ Ez), app_nil_r. reflexivity.
+    + split; [reflexivity|]. split; [reflexivity|]. rewrite <- Hp. split; [exact Hnd|reflexivity].
 Qed.
 
 Lemma write_all W : forall s, NoDup W ->
@@ -975,10 +1232,10 @@ Proof.
     apply body_upd_notin. exact Hni.
 Qed.
 
-Lemma finish_file single recs s : Inv single recs s -> file (finish s) = content s.
+Lemma finish_file single recs s : Inv single recs s -> TaskInv s -> file (finish s) = content s.
 Proof.
-  intro HI. unfold finish, drain.
-  destruct (drain_spec single recs (length (chan s)) s HI eq_refl) as [HI1 [Hc1 [Hch1 _]]].
+  intros HI HT. unfold finish, drain.
+  destruct (drain_spec single recs (length (chan s)) s HI HT eq_refl) as [HI1 [Hc1 [Hch1 _]]].
   set (s1 := iter (length (chan s)) rstep s) in *.
   destruct (flush_spec single recs s1 HI1 Hch1) as [Hb [Hf [Hnd Hbody]]].
   set (s2 := flush_shmem_list s1) in *.
@@ -992,6 +1249,12 @@ Qed.
 Definition start (setup : bool) (recs : list rec) : st := if setup then init0 recs else init recs.
 Lemma start_inv setup single recs : Inv single recs (start setup recs).
 Proof. destruct setup; [apply init0_inv | apply init_inv]. Qed.
+Lemma start_task setup recs : TaskInv (start setup recs).
+Proof.
+  intros pre i post E. destruct setup; cbn in E.
+  - destruct pre; discriminate.
+  - destruct pre as [|m [|m' pre]]; discriminate.
+Qed.
 Lemma init_is_two_steps single cap recs : init recs = run single cap [LP; LP] (init0 recs).
 Proof. reflexivity. Qed.
 
@@ -1000,8 +1263,8 @@ Theorem prefix_general setup single cap recs sched :
   exists bs rest,
     Matches (done s) bs /\ file (finish s) = bs ++ extra single s /\ recs = done s ++ rest.
 Proof.
-  intro s. pose proof (run_inv single recs cap sched (start setup recs) (start_inv setup single recs)) as HI. fold s in HI.
-  rewrite (finish_file single recs s HI).
+  intro s. destruct (run_inv2 single recs cap sched (start setup recs) (start_inv setup single recs) (start_task setup recs)) as [HI HT].
+  fold s in HI, HT. rewrite (finish_file single recs s HI HT).
   destruct HI as [_ _ _ _ _ _ [bs [Hm Hc]] [rest0 [Hrecs _]]].
   exists bs, (inflight s ++ todo s ++ rest0). split; [exact Hm|]. split; [exact Hc|]. symmetry. exact Hrecs.
 Qed.
@@ -1046,11 +1309,11 @@ Theorem window_exact setup cap recs sched :
   exists r bs rest, (pc s = PCopy r \/ pc s = PBumpPl r) /\
     Matches (done s) bs /\ file (finish s) = bs ++ hdr r /\ recs = done s ++ r :: rest.
 Proof.
-  intros s Hw. pose proof (run_inv false recs cap sched (start setup recs) (start_inv setup false recs)) as HI. fold s in HI.
-  rewrite (finish_file false recs s HI).
+  intros s Hw. destruct (run_inv2 false recs cap sched (start setup recs) (start_inv setup false recs) (start_task setup recs)) as [HI HT].
+  fold s in HI, HT. rewrite (finish_file false recs s HI HT).
   destruct HI as [_ _ _ _ _ _ [bs [Hm Hc]] [rest0 [Hrecs _]]].
   unfold in_window in Hw. unfold extra in Hc. unfold inflight in Hrecs. cbn [negb andb] in Hw.
-  destruct (pc s) as [| | | | | | | | |r|r| | |] eqn:Epc; try discriminate;
+  destruct (pc s) as [| | | | | | | | |r|r| | | | | |] eqn:Epc; try discriminate;
     exists r, bs, (todo s ++ rest0); (split; [auto|]); (split; [exact Hm|]); (split; [exact Hc|]); symmetry; exact Hrecs.
 Qed.
 
@@ -1059,7 +1322,7 @@ Theorem complete_run setup single cap recs sched :
   let s := run single cap sched (start setup recs) in
   pc s = PIdle -> todo s = [] -> match_recs recs (file (finish s)) = true.
 Proof.
-  intros s Hpc Ht. pose proof (run_inv single recs cap sched (start setup recs) (start_inv setup single recs)) as HI. fold s in HI.
+  intros s Hpc Ht. pose proof (run_inv single recs cap sched (start setup recs) (start_inv setup single recs) (start_task setup recs)) as HI. fold s in HI.
   destruct (prefix_outside_window setup single cap recs sched) as [Hm _].
   { unfold in_window. fold s. rewrite Hpc. apply andb_false_r. }
   fold s in Hm. destruct HI as [_ _ _ _ _ _ _ [rest0 [Hrecs Hd]]]. unfold inflight in Hrecs. rewrite Hpc, Ht in Hrecs.
